@@ -31,7 +31,7 @@ import c08_impl
 import c18_impl
 
 KEEP = []
-RED = {"sum": torch.sum, "mean": torch.mean, "amax": torch.amax, None: None}
+RED = {"sum": torch.sum, "mean": torch.mean, "amax": torch.amax, "amin": torch.amin, None: None}
 
 
 def set_bounds(acc, bound):
@@ -416,6 +416,79 @@ def run_stdp_biclique(defaults, cells):
     return [recs[c["bic"][0]] for c in cells]
 
 
+# ------------------------------------------------------------------ kernel trainers with custom half kernels
+def two_sided_kernel(diff, *, a_pos, a_neg, c, tc, **kwargs):
+    """user-supplied half kernel K(t_delta) = c + (a_pos if t_delta >= 0 else a_neg) * exp(-|t_delta| / tc): non-zero on both
+    sides of 0 and / or constant, so that kernel_post and kernel_pre overlap (NaN in, NaN out)"""
+    return c + torch.where(diff >= 0, a_pos, a_neg) * torch.exp(-diff.abs() / tc)
+
+
+def kkw(v):
+    return {"a_pos": v[0], "a_neg": v[1], "c": v[2], "tc": v[3]}
+
+
+def run_kernel_group(defaults, cells):
+    """ONE KernelSTDP / DelayAdjustedKernelSTDP / DelayAdjustedKernelSTDPD object built with two_sided_kernel callables and the
+    constructor-level kernel keyword arguments / batch reduction `defaults`, driving several cells (real Serial layers built
+    by c18_impl.build_cell), each registered with its own overrides (cell["override_keys"] among "post", "pre", "red" of
+    its effective hyperparameters cell["trainer"]).  Per step and cell: the two event monitors, the delay, the parts the call
+    appended, the accumulated parts; at the end the trained parameter before / after connection.update() with the
+    configured bound."""
+    from inferno import learn
+    cls = defaults["cls"]
+    kw = {"delayed": False} if cls == "KernelSTDP" else {}
+    tr = getattr(learn, cls)(two_sided_kernel, two_sided_kernel, kkw(defaults["kpost"]), kkw(defaults["kpre"]),
+                             batch_reduction=RED[defaults["red"]], **kw)
+    KEEP.append(tr)
+    param = "delay" if cls.endswith("STDPD") else "weight"
+    built = []
+    for j, case in enumerate(cells):
+        cs, conn, neu, layer = c18_impl.build_cell(case)
+        with torch.no_grad():
+            conn.weight = torch.full_like(conn.weight, float(case.get("w0", 0.5)))
+            if case.get("delay0") is not None and conn.delay is not None:
+                conn.delay = torch.tensor(case["delay0"], dtype=torch.float64).reshape(conn.delay.shape)
+        t = case["trainer"]
+        okw = {}
+        for k in case.get("override_keys", []):
+            if k == "post":
+                okw["kernel_post_kwargs"] = kkw(t["kpost"])
+            elif k == "pre":
+                okw["kernel_pre_kwargs"] = kkw(t["kpre"])
+            elif k == "red":
+                okw["batch_reduction"] = RED[t["red"]]
+            else:
+                raise ValueError(k)
+        tr.register_cell(f"c{j}", layer.cell, **okw)
+        layer.train()
+        acc = getattr(conn.updater, param)
+        set_bounds(acc, case.get("bound"))
+        built.append((conn, neu, layer, acc, Tap(acc)))
+    tr.train()
+    T = len(cells[0]["steps"])
+    outs = [{"ok": True, "steps": []} for _ in cells]
+    for k in range(T):
+        for j, (case, (conn, neu, layer, acc, tap)) in enumerate(zip(cells, built)):
+            st, B = case["steps"][k], case["B"]
+            x = torch.tensor(st["pre"], dtype=torch.float64).reshape(B, *conn.inshape)
+            neu.script = [torch.tensor(st["post"], dtype=torch.float64).reshape(B, *conn.outshape)]
+            layer(x)
+        tr()
+        for j, (case, (conn, neu, layer, acc, tap)) in enumerate(zip(cells, built)):
+            mon = tr.get_unit(f"c{j}").monitors
+            pv = getattr(conn, param)
+            newp, newn = tap.new(pv)
+            outs[j]["steps"].append({"pre": flat(mon["spike_pre"].peek()), "post": flat(mon["spike_post"].peek()),
+                                     "delay": None if conn.delay is None else flat(conn.delay),
+                                     "pos": newp, "neg": newn, "apos": flat_like(acc.pos, pv), "aneg": flat_like(acc.neg, pv)})
+    for j, (case, (conn, neu, layer, acc, tap)) in enumerate(zip(cells, built)):
+        before = getattr(conn, param).detach().clone()
+        conn.update()
+        after = getattr(conn, param).detach().clone()
+        outs[j].update({"before": flat(before), "after": flat(after), "cleared": acc.pos is None and acc.neg is None})
+    return outs
+
+
 def err_record(e):
     import traceback
     return {"ok": False, "err": exc_code(e), "msg": f"{type(e).__name__}: {e}"[:400], "trace": traceback.format_exc()[-1500:]}
@@ -426,6 +499,9 @@ def handler(payload):
     for c in payload["cases"]:
         try:
             if c["kind"] == "group":
+                if c["family"] == "kernel":
+                    out.append(run_kernel_group(c["defaults"], c["cells"]))
+                    continue
                 bic = c.get("layout") == "biclique"
                 fn = ((run_homeo_biclique if bic else run_homeo_group) if c["family"] == "homeo"
                       else (run_stdp_biclique if bic else run_stdp_group))
